@@ -4,7 +4,7 @@ From TS Require Import Model.Str Model.Outcome Model.Unicode Model.Types Model.P
                        Model.Lang.TypeScript Model.Lang.Kotlin Model.Lang.Scala Model.Lang.Go Spec.C09Spec.
 From TS Require Import Model.Lang.Swift Model.Lang.Python.
 From TS Require Proofs.C09Common Proofs.C09Recon Proofs.C09Refs Proofs.C09_KotlinFile Proofs.C09Witness Proofs.C09Final.
-From TS Require Proofs.C09_TypeScript Proofs.C09_Scala.
+From TS Require Proofs.C09_TypeScript Proofs.C09_Scala Proofs.C09_Python.
 Import ListNotations.
 
 (* the program the back ends receive in single-file mode is Proofs.C09Recon.c09_reconciled of the parsed one *)
@@ -109,6 +109,27 @@ Theorem C09_no_rename_Scala :
       good_C09 Scala [] pd (c09_observe Scala fd) = true.
 Proof. exact Proofs.C09Final.c09_no_rename_scala. Qed.
 Print Assumptions C09_no_rename_Scala.
+
+(* Python (no prefix), every program, every type-mapping configuration: outside the recorded classes every
+   name spelled in a type position (attribute types, variant content types, alias targets, const types,
+   the ...Inner helper class of a struct variant, generic arguments) is a generic parameter of the item it
+   stands in or exactly the name a generated definition is declared under *)
+Theorem C09_Python :
+  forall (uc : unicode) (cfg : py_config) (acrs : list str) (pd : parsed),
+    dom_C09 Python [] pd = true -> known_C09 Python [] acrs pd = None ->
+    forall fd : file_decls, py_file_decls uc cfg (Proofs.C09Recon.c09_reconciled pd) = Ok fd ->
+      good_C09 Python [] pd (c09_observe Python fd) = true.
+Proof. exact Proofs.C09_Python.c09_python_all. Qed.
+Print Assumptions C09_Python.
+
+Theorem C09_no_rename_Python :
+  forall (uc : unicode) (cfg : py_config) (pd : parsed),
+    dom_C09 Python [] pd = true ->
+    (forall e, In e (c09_entities pd) -> c09_renamed_away (c9e_id e) = false) ->
+    forall fd : file_decls, py_file_decls uc cfg (Proofs.C09Recon.c09_reconciled pd) = Ok fd ->
+      good_C09 Python [] pd (c09_observe Python fd) = true.
+Proof. exact Proofs.C09Final.c09_no_rename_python. Qed.
+Print Assumptions C09_no_rename_Python.
 
 (* nothing renamed => no recorded class applies, all languages (with an empty Go acronym list) *)
 Theorem C09_no_rename_no_class :
